@@ -329,6 +329,10 @@ class Burst(BytesInterface):
         if not self.is_data_or_control:
             return self.voice_bits
 
+        if self.data is None and self.info_bits_original is not None:
+            # data types without PDU class (idle, MBC, USBD), payload is kept as received
+            return self.info_bits_original
+
         if self.data_type == DataTypes.Rate34Data:
             return Trellis34.encode(self.data.as_bits())
         elif self.data_type == DataTypes.Rate1Data:
